@@ -70,7 +70,7 @@ def gen(rng):
             p = wd + '/nf%d' % i
             G.make_entry(rng, p, rng.choice(['file', 'dir']), steps, aux)
             faults.append({'kind': 'cond', 'what': 'name_errno', 'ops': rng.choice([['open_w'], ['open_w'], ['write', 'fwrite'], ['close']]) ,
-                           'basename': 'nf%d.trashinfo' % i, 'errno': rng.choice([E.ENOSPC, E.EDQUOT, E.EROFS, E.EIO, E.EACCES])})
+                           'basename': 'nf%d.trashinfo' % i, 'prefix': 'nf%d' % i, 'suffix': '.trashinfo', 'errno': rng.choice([E.ENOSPC, E.EDQUOT, E.EROFS, E.EIO, E.EACCES])})
         elif cls == 'immutable':
             p = wd + '/imm%d' % i
             G.make_entry(rng, p, rng.choice(['file', 'dir']), steps, aux)
